@@ -519,11 +519,11 @@ def _check(prop, mod, tier, seed, replay, rundir, t0):
             results['evaluations'] += 1
             iv = vals.parse_line(il)[0]
             dv = vals.parse_line(dl)[0]
-            if il.strip() in ('e997', 'e998'):
+            if il.strip() in ('e996', 'e997', 'e998'):
                 # the harness's own markers: the call did not return within the per-case time limit /
                 # the same case got a different answer when run again later in the same process.
                 # Neither is ever acceptable, whatever the case.
-                mism.append((line, il, dl, 'IMPL did not terminate' if il.strip() == 'e997' else 'IMPL answer depends on earlier calls'))
+                mism.append((line, il, dl, {'e996': 'IMPL returned an object outside the observation grammar', 'e997': 'IMPL did not terminate'}.get(il.strip(), 'IMPL answer depends on earlier calls')))
                 viol.append((line, il, dl))
                 continue
             if not isinstance(dv, list) or len(dv) < 2:
